@@ -37,9 +37,9 @@ var fixed = []core.Case{
 }
 
 func (prop) Gen(r *core.Rand, tier string) []core.Case {
-	n := 40
+	n := 110
 	if tier == "thorough" {
-		n = 600
+		n = 1200
 	}
 	cs := append([]core.Case(nil), fixed...)
 	for i := 0; i < n; i++ {
